@@ -704,7 +704,57 @@ def run(chk):
   chk.rule('C13-R3', 'time / identity / randomness sources are confined to the '
            'stop-signal file name, timers and identity bookkeeping',
            min_instances=3)
+  allocators_are_per_compilation(chk, 'C13-R2')
+  from rules import common as K_
+  K_.no_memo_decorators(chk, 'C13-R2', COMPILE_MODULES)
   nondeterminism(chk, 'C13-R3')
   chk.rule('C13-R4', 'caller-owned rules and shared template tables are deep '
            'copied before any in-place rewrite', min_instances=8)
   caller_owned(chk, 'C13-R4')
+
+
+def allocators_are_per_compilation(chk, rid):
+  """Aliases (t_N_.., x_N) are numbered by a NamesAllocator; the SQL of a
+  predicate is the same whatever was compiled before only if every top-level
+  compilation starts from a NEW allocator: a default allocator is created by
+  a constructor call each time it is needed, and NewNamesAllocator itself
+  constructs one - nothing reads an allocator kept on the program object."""
+  repo = chk.repo
+  m = repo.by_name('universe')
+  n_defaults = 0
+  kept = None
+  def constructs(e, fi, depth=0):
+    if isinstance(e, ast.BoolOp) and isinstance(e.op, ast.Or):
+      return constructs(e.values[-1], fi, depth)
+    if isinstance(e, ast.IfExp):
+      return constructs(e.body, fi, depth) and constructs(e.orelse, fi, depth) or \
+          (dotted(e.orelse) == 'allocator' and constructs(e.body, fi, depth)) or \
+          (dotted(e.body) == 'allocator' and constructs(e.orelse, fi, depth))
+    if isinstance(e, ast.Call):
+      if call_tail(e) == 'NamesAllocator':
+        return True
+      for t in repo.resolve(fi, e):
+        if t.startswith('universe.') and depth < 3:
+          try:
+            h = repo.func(t)
+          except AnalysisError:
+            continue
+          rets = [r for r in walk_local(h.node) if isinstance(r, ast.Return) and r.value is not None]
+          return bool(rets) and all(constructs(r.value, h, depth + 1) for r in rets)
+    return False
+  for q, fi in sorted(m.funcs.items()):
+    if 'allocator' not in fi.params:
+      continue
+    for x in walk_local(fi.node):
+      if isinstance(x, ast.Assign) and len(x.targets) == 1 and dotted(x.targets[0]) == 'allocator':
+        n_defaults += 1
+        if not constructs(x.value, fi):
+          kept = (fi, x)
+  if n_defaults < 2:
+    raise AnalysisError('default allocators of universe.py not recognised (%d)' % n_defaults)
+  chk.ob(rid, kept is None, None,
+         'every top-level compilation gets a newly constructed NamesAllocator (%d defaults)' % n_defaults,
+         '`%s`: the default allocator is an object that outlives the call - alias numbers of a '
+         'predicate depend on what the same program object compiled before'
+         % (norm(kept[1], 70) if kept else ''), fi=kept[0] if kept else repo.func(
+             'universe.LogicaProgram.NewNamesAllocator'), node=kept[1] if kept else None)
